@@ -9,6 +9,17 @@
 
 use std::sync::atomic::{AtomicU64, Ordering};
 
+/// Replay divergences met so far (the body took another number of alternatives at a point than the prefix records):
+/// the explored body is not deterministic there. Read by the context when the run ends.
+pub static DIVERGENCES: std::sync::atomic::AtomicU64 = std::sync::atomic::AtomicU64::new(0);
+pub static FIRST_DIVERGENCE: std::sync::Mutex<Option<String>> = std::sync::Mutex::new(None);
+fn note_divergence(msg: String) {
+  if DIVERGENCES.fetch_add(1, std::sync::atomic::Ordering::SeqCst) == 0 {
+    eprintln!("MACHINERY-ERROR: {msg}");
+    *FIRST_DIVERGENCE.lock().unwrap() = Some(msg);
+  }
+}
+
 pub struct Chooser<'a> {
   prefix: &'a [u32],
   trace: Vec<(u32, u32)>,
@@ -26,11 +37,15 @@ impl<'a> Chooser<'a> {
     let c = if i < self.prefix.len() {
       let c = self.prefix[i];
       if c as usize >= n {
-        // Divergence while replaying a prefix: the body is not deterministic. Hard error.
-        eprintln!("MACHINERY-ERROR: replay divergence at point {i} ({label}): choice {c} of {n}");
-        std::process::exit(2);
+        // Divergence while replaying a prefix: the body is not deterministic. A machinery error, never a verdict:
+        // it is counted (the run ends with exit 2 unless a violation was found elsewhere that replays identically
+        // on its own), this execution goes on with the default alternative and nothing it finds is believed
+        // unless it reproduces.
+        note_divergence(format!("replay divergence at point {i} ({label}): choice {c} of {n}"));
+        0
+      } else {
+        c
       }
-      c
     } else {
       0
     };
@@ -88,8 +103,8 @@ where
   let trace = std::mem::take(&mut ch.trace);
   drop(ch);
   if trace.len() < prefix.len() {
-    eprintln!("MACHINERY-ERROR: replay divergence: body met {} points, prefix has {}", trace.len(), prefix.len());
-    std::process::exit(2);
+    note_divergence(format!("replay divergence: body met {} points, prefix has {}", trace.len(), prefix.len()));
+    return;
   }
   let dev = prefix.iter().filter(|c| **c != 0).count() as u32;
   sh.execs.fetch_add(1, Ordering::Relaxed);
